@@ -415,18 +415,24 @@ def run_minimize_case(env, ctx, model, case, known_id=None, func_override=None):
         # MODEL's layout (theorem C18_bounds_layout): some of them cut the unconstrained minimiser t off
         rngb = np.random.Generator(np.random.PCG64(seed + 17))
 
-        def shift(c, lo):
+        def make_box(c):
+            """entrywise lower / upper bound containers around c: the lower bound lies between c - 3/8 and c + 1/8 (so a good
+            part of the lower bounds is active at the unconstrained minimiser c), the width between 1/8 and 1/2"""
             blocks = c.arrays if isinstance(c, env.BlockArray) else [c]
-            out = []
+            los, his = [], []
             for b in blocks:
                 a = np.asarray(b)
-                d = (rngb.integers(-2, 3, size=a.shape) / 8.0) + (-0.375 if lo else 0.375)
+                dl = rngb.integers(-3, 2, size=a.shape) / 8.0
+                w = rngb.integers(1, 5, size=a.shape) / 8.0
                 if a.dtype.kind == "c":
-                    d = d + 1j * ((rngb.integers(-2, 3, size=a.shape) / 8.0) + (-0.375 if lo else 0.375))
-                out.append(env.jnp.array((a + d).astype(a.dtype)))
-            return env.BlockArray(out) if isinstance(c, env.BlockArray) else out[0]
+                    dl = dl + 1j * (rngb.integers(-3, 2, size=a.shape) / 8.0)
+                    w = w + 1j * (rngb.integers(1, 5, size=a.shape) / 8.0)
+                los.append(env.jnp.array((a + dl).astype(a.dtype)))
+                his.append(env.jnp.array((a + dl + w).astype(a.dtype)))
+            mk = (lambda l: env.BlockArray(l)) if isinstance(c, env.BlockArray) else (lambda l: l[0])
+            return mk(los), mk(his)
 
-        Lc, Uc = shift(t, True), shift(t, False)
+        Lc, Uc = make_box(t)
         lo = np.array(b2fs(model.call("flatten", x0=container_json(env, Lc))["v"]), dtype=float)
         hi = np.array(b2fs(model.call("flatten", x0=container_json(env, Uc))["v"]), dtype=float)
         box = (Lc, Uc)
@@ -737,6 +743,36 @@ def section_sequence(env, ctx, model):
             ctx.count("sequence:same-function-object")
 
 
+def section_jit(env, ctx, model):
+    """`minimize` is written with `jax.pure_callback` so that it can be traced: under `jax.jit` (and `vmap` over starts)
+    the returned container is the eager one (container kind, shape, dtype, values)"""
+    rng = ctx.rng
+    jax = env.jax
+    forms = [FORMS[i] for i in ((0, 4, 6, 8, 9) if ctx.thorough else (0, 8))]
+    for form in forms:
+        for method in ("L-BFGS-B", "Nelder-Mead"):
+            x0, t, w = make_data(env, form, int(rng.integers(0, 2**31)))
+            func = make_objective(env, "quad", t, w)
+            with warnings.catch_warnings():
+                warnings.simplefilter("ignore")
+                try:
+                    eager = ("ok", env.solver.minimize(func, x0, method=method).x)
+                except Exception as e:  # noqa: BLE001
+                    eager = ("err", common.err_kind(e))
+                try:
+                    jitted = ("ok", jax.jit(lambda z: env.solver.minimize(func, z, method=method).x)(x0))
+                except Exception as e:  # noqa: BLE001
+                    jitted = ("err", common.err_kind(e))
+            ctx.case({"section": "jit", "form": form_tag(form), "method": method}, ("jit", form_tag(form), method))
+            ctx.count(f"jit:{'blk' if form['isblk'] else 'arr'}/{form['dtype']}")
+            good = eager[0] == jitted[0] and (eager[0] == "err" or same_container(env, eager[1], jitted[1]))
+            if not good:
+                fail = {"call": f"jax.jit(lambda z: solver.minimize(func, z, method={method!r}).x)(x0[{form_tag(form)}])",
+                        "under_jit": describe(env, jitted[1]) if jitted[0] == "ok" else {"err": jitted[1]},
+                        "eager": describe(env, eager[1]) if eager[0] == "ok" else {"err": eager[1]}}
+                ctx.disagree("wrap.jit", {"section": "jit", "form": form, "method": method}, fail["under_jit"], fail["eager"], oracle=lambda c, fail=fail: fail)
+
+
 def section_scalar(env, ctx, model):
     spopt, jnp = env.spopt, env.jnp
     rng = ctx.rng
@@ -829,7 +865,7 @@ def correspond(ctx, model):
 
     env = Env()
     timing = {}
-    for sec in (run_corpus, section_helpers, section_helpers_boundary, section_scalar, section_sequence, section_minimize):
+    for sec in (run_corpus, section_helpers, section_helpers_boundary, section_scalar, section_jit, section_sequence, section_minimize):
         t0 = time.time()
         try:
             sec(env, ctx, model)
